@@ -213,7 +213,24 @@ def run(spec, ctx):
                 except Exception as e:  # noqa: BLE001
                     errors.append({"thread": wid, "raised": "%s: %s" % (type(e).__name__, e)})
 
+            shared = [RelativeJSONPointer("0/x~1y"), RelativeJSONPointer("1+1/z"), RelativeJSONPointer("1#"), RelativeJSONPointer("2-1/\u00e9/0")]
+
             def _work(wid, rr):
+                # the same objects applied by every thread to ITS OWN bases, each base several times in a row
+                for rep in range(3):
+                    for rel_ in rr.sample(shared, len(shared)):
+                        b1, b2 = "/t%d/%d/k%d" % (wid, 3 + wid, rep), "/other%d/%d/m" % (wid, 10 + rep)
+                        for base_text_ in (b1, b1, b2, b1, b2, b2):
+                            toks_ = rp.decode(base_text_)
+                            try:
+                                t2, mk = rp.rel_apply(list(toks_), rel_.origin, rel_.index, "#" if rel_.pointer == "#" else [str(x) for x in rel_.pointer.parts])
+                                want_ = rp.encode(t2[:-1] + ["#" + t2[-1]]) if mk else rp.encode(t2)
+                            except (rp.RelFail, ValueError):
+                                continue
+                            got_ = impl.call(lambda: str(rel_.to(JSONPointer(base_text_))))
+                            if not got_.ok or got_.value != want_:
+                                errors.append({"relative": str(rel_), "base": base_text_, "operation": "one object applied by several threads to their own bases", "got": got_.desc() if not got_.ok else got_.value, "expected": want_})
+                                return
                 for rel, text, base_text, want in rr.sample(cases, len(cases)):
                     what = rr.choice(["str", "eq", "to", "str"])
                     if what == "str":
